@@ -1125,6 +1125,11 @@ class Interp:
             _, lo, hi, step = idx
             if step is not None:
                 raise OutOfSubset('slice step')
+            if isinstance(lo, VNone): lo = None            # s[None:x] / s[i:None]: an omitted bound
+            if isinstance(hi, VNone): hi = None
+            for bnd in (lo, hi):
+                if bnd is not None and not isinstance(bnd, VInt):
+                    self.raise_py(TypeError)               # slice indices must be integers or None
             if (S.REGULAR_MODE and isinstance(obj, VStr) and not isinstance(obj, VLazySuffix) and hi is None and lo is not None
                     and self.is_concrete_int(lo) and self.concrete_int(lo) >= 0 and S.regular_var(obj.term)):
                 return VLazySuffix(ctx, obj.term, self.concrete_int(lo))
